@@ -436,7 +436,7 @@ func init() {
 		},
 		Gen: func(r *Rng, tier string) *genProfile {
 			return &genProfile{MaxSteps: steps(tier, 30, 70), Default: 0, FollowUp: 70, Template: 50,
-				Templates: []string{"enroll_totp", "enroll_sms", "everify_probe", "remove_factor", "remove_factor", "spent_recovery_remove", "halfauth_settings", "halfauth_settings", "adversary_codes",
+				Templates: []string{"enroll_totp", "enroll_sms", "everify_probe", "remove_factor", "remove_factor", "spent_recovery_remove", "halfauth_settings", "halfauth_settings", "factor_change_between_steps", "adversary_codes",
 					"second_factor_enrol", "twofa_then_other_password"},
 				Weights: withW(loginWeights, map[string]int{"totp_setup": 6, "totp_confirm": 6, "totp_remove": 6, "sms_setup": 6, "sms_confirm": 6, "sms_remove": 6,
 					"recovery_regen": 2, "everify_start": 5, "everify_end": 6, "totp_setup_get": 2, "sms_setup_get": 2, "recover_start": 0, "recover_end": 0, "otp_login": 2,
